@@ -243,6 +243,33 @@ func LockHeld(fn *ssa.Function, isLock, isUnlock InstrPred, target ssa.Instructi
 	return cur
 }
 
+// hasLoop: the (unpruned) CFG has a back edge.
+func (ff *FuncFacts) hasLoop() bool {
+	if ff.loopKnown {
+		return ff.loop
+	}
+	state := map[*ssa.BasicBlock]int{}
+	var dfs func(b *ssa.BasicBlock) bool
+	dfs = func(b *ssa.BasicBlock) bool {
+		state[b] = 1
+		for _, s := range b.Succs {
+			if state[s] == 1 {
+				return true
+			}
+			if state[s] == 0 && dfs(s) {
+				return true
+			}
+		}
+		state[b] = 2
+		return false
+	}
+	ff.loopKnown = true
+	if len(ff.Fn.Blocks) > 0 {
+		ff.loop = dfs(ff.Fn.Blocks[0])
+	}
+	return ff.loop
+}
+
 // Removed reports whether the CFG edge was pruned by an assumption (for use as Flow.Skip).
 func (ff *FuncFacts) Removed(from, to *ssa.BasicBlock) bool {
 	return ff.removed[[2]int{from.Index, to.Index}] || !ff.reach[from]
